@@ -195,6 +195,34 @@ def job_busy(j):
     return n, res
 
 
+def job_boundary_contents(j):
+    """Polls with every register at a boundary word (0x7FFF, 0x8000, 0x8001, 0xFFFF, 0, 1): what a sensor - a calculated
+    one included - reads does not reach past the answer it is decoded from because of a value it found there."""
+    cfg, = j
+    out = {}
+    n = 0
+    for word in (0x7FFF, 0x8000, 0x8001, 0xFFFF, 0x0000, 0x0001, 0x7FFE):
+        r = make_rig(cfg, 'udp', fill=lambda a, w=word: w)
+        if r.call(r.inv.read_device_info)[0] != 'ok':
+            continue
+        with Probe() as p:
+            r.call(r.inv.read_runtime_data)
+            r.call(r.inv.read_runtime_data)
+        n += 2
+        for sid, pos, size, got, win in p.short:
+            if ('C14', f'reads-inside-answer/{cfg["family"]}/{sid}') in _known():
+                continue
+            key = f'reads-inside-answer/{cfg["family"]}/{sid}/boundary-register-contents'
+            out.setdefault(key, []).append(dict(key=key, clause='reads-inside-answer', replay=dict(cfg=cfg, transport='udp', boundary=True),
+                                                detail=dict(cause=f'{sid}: read {size} bytes at payload position {pos}, got {got} (window {win[0]}+{win[1]}); '
+                                                                  f'every register holds {word:#06x}')))
+    res = []
+    for key, lst in out.items():
+        lst[0]['n'] = len(lst)
+        res.append(lst[0])
+    return n, res
+
+
 def job_single_reads(j):
     """read_sensor(id) for every listed id and read_setting(id) for every setting of a configured object: the value is
     decoded from the registers that single request fetched, never from beyond the end of its answer."""
@@ -331,6 +359,10 @@ def run(tier, seed, rep):
         for v in res:
             v['key'] += '/firmware-version-sweep' if ('C14', v['key']) not in _known() else ''
         rep.add_many(res)
+    nbound = 0
+    for n, res in pmap(job_boundary_contents, [(c,) for c in busy_cfgs]):
+        nbound += n
+        rep.add_many(res)
     nsingle = 0
     for n, res in pmap(job_single_reads, [(c,) for c in busy_cfgs] + [(dict(c, refuse_mode='cover'),) for c in busy_cfgs if c['refused']]):
         nsingle += n
@@ -364,7 +396,7 @@ def run(tier, seed, rep):
         states |= sts
         rep.add_many(res)
     cov = dict(api_session_histories=_api['histories'], api_session_states=_api['states'], states=len(states), transitions=reads, executions=total, traces_validated_against_impl=total,
-               configurations=total, dynamic_histories=ndyn, polls_with_one_request_rejected=nbusy, overlapping_poll_pairs=novl, single_reads_probed=nsingle, instrumented_reads=reads, exhaustive=True,
+               configurations=total, dynamic_histories=ndyn, polls_with_one_request_rejected=nbusy, overlapping_poll_pairs=novl, single_reads_probed=nsingle, polls_with_boundary_contents=nbound, instrumented_reads=reads, exhaustive=True,
                bound='every model configuration of C15 (tags x rated power x refused subsets x battery) x every sensor of '
                      'every block; each ProtocolResponse.read is observed (position, requested, returned) and cross-checked '
                      'with the static sensor-span-versus-request-window computation',
@@ -384,6 +416,9 @@ def replay(r):
         return out
     cfg = r['cfg']
     cfg['refused'] = tuple(cfg['refused'])
+    if r.get('boundary'):
+        n, res = job_boundary_contents((cfg,))
+        return dict(polls=n, violations=[('reads-inside-answer', v['key']) for v in res])
     if r.get('singles'):
         n, res = job_single_reads((cfg,))
         return dict(reads=n, violations=[('reads-inside-answer', v['key']) for v in res])
